@@ -214,3 +214,94 @@ def err_class(e):
     if isinstance(e, RuntimeError):
         return "runtime"
     return type(e).__name__
+
+
+# --------------------------------------------------------------------------------------------------
+# implementation exceptions on valid inputs (robustness net, kind (C) of the harness audit)
+# --------------------------------------------------------------------------------------------------
+def raised_in_repo(e):
+    """True when the exception was raised while $REPO code was running on behalf of the harness: walking the traceback from the
+    innermost frame outwards (frames of numpy / networkx / the standard library are skipped), the first frame that belongs either to
+    $REPO or to the harness belongs to $REPO.  An exception raised by harness code itself (or by the driver client) is not attributed to
+    the implementation and stays an infrastructure failure."""
+    import traceback
+
+    repo = os.path.realpath(REPO) + os.sep
+    verif = os.path.realpath(VERIF) + os.sep
+    try:
+        frames = traceback.extract_tb(e.__traceback__)
+    except Exception:  # noqa: BLE001
+        return False
+    for fs in reversed(frames):
+        fn = os.path.realpath(fs.filename)
+        if fn.startswith(repo):  # first: a scratch copy of the repository may live below the verification directory
+            return True
+        if fn.startswith(verif):
+            return False
+    return False
+
+
+def where_raised(e):
+    """'file.py:line function' of the innermost $REPO frame of the traceback (for the report)"""
+    import traceback
+
+    repo = os.path.realpath(REPO) + os.sep
+    try:
+        for fs in reversed(traceback.extract_tb(e.__traceback__)):
+            fn = os.path.realpath(fs.filename)
+            if fn.startswith(repo):
+                return f"{fn[len(repo):]}:{fs.lineno} {fs.name}"
+    except Exception:  # noqa: BLE001
+        pass
+    return "?"
+
+
+class impl_guard:
+    """`with impl_guard(res, "stream"):` around a stream of VALID generated inputs.  An exception that graphiq raises there and that no
+    call site handled used to leave run() and end as exit 2 ("INFRA: harness crashed"), which is not a detection.  It is the
+    implementation failing on a valid input: reported as `res.violation("<stream>:raises:<class>")` when `promise` (the property
+    promises a result on these inputs) else as `res.exact_break("<stream>:raises:<class>")`; the rest of that stream is abandoned, the
+    following streams still run.  Exceptions raised by harness code or the driver are re-raised unchanged (infrastructure).
+    Nothing changes for a run in which nothing raises."""
+
+    def __init__(self, res, stream, promise=False, input=None, also=()):
+        # also: harness exception classes that mean "the implementation produced something outside the modelled domain" (e.g.
+        # wireutil.OutOfModel): attributed to the implementation although they are raised by harness code
+        self.res, self.stream, self.promise, self.input, self.also = res, stream, promise, input, tuple(also)
+        self.raised = None
+
+    def __enter__(self):
+        return self
+
+    def __exit__(self, et, e, tb):
+        if e is None or not isinstance(e, Exception):
+            return False
+        out_of_domain = bool(self.also) and isinstance(e, self.also)
+        if not out_of_domain and not raised_in_repo(e):
+            return False
+        self.raised = e
+        key = f"{self.stream}:out-of-model" if out_of_domain else f"{self.stream}:raises:{err_class(e)}"
+        what = f"{type(e).__name__}: {e}"[:300] + ("" if out_of_domain else f" [at {where_raised(e)}]")
+        inp = self.input if self.input is not None else {"stream": self.stream}
+        self.res.count("errors", key)
+        ab = self.res.extra.setdefault("streams_aborted", {})
+        ab[self.stream] = ab.get(self.stream, 0) + 1
+        if out_of_domain:
+            self.res.exact_break(key, input=inp, impl=what, model="every object the implementation produces on these inputs lies in the modelled domain")
+        elif self.promise:
+            self.res.violation(key, "the implementation raised on a valid generated input (no call site of the harness expects an error there)",
+                               input=inp, impl=what)
+        else:
+            self.res.exact_break(key, input=inp, impl=what, model="no error expected on a valid generated input")
+        return True
+
+
+def coverage_floor(res, stream, done, planned, floor=0.5, what="cases"):
+    """kind (D): a stream that silently skips most of its valid cases no longer checks anything.  Records the executed fraction in the
+    evidence and reports an exact_break when fewer than `floor` of the planned valid cases were actually compared."""
+    res.extra.setdefault("stream_coverage", {})[stream] = f"{done}/{planned}"
+    if planned > 0 and done < floor * planned:
+        res.exact_break(f"coverage collapsed: {stream}", input={"stream": stream},
+                        impl=f"only {done} of {planned} generated valid {what} were compared", model=f"at least {floor:.0%} are compared")
+        return False
+    return True
